@@ -249,11 +249,93 @@ fn judge(ctx: &mut Ctx, class: &str, file: &[u8], without: &[u8], expect: Option
     }
 }
 
+/// `Decoder::set_ignore_text_chunk(true)` / `Decoder::set_ignore_iccp_chunk(true)` on a `Decoder::new(..)` (the PUBLIC switches):
+/// the text chunks / the ICC profile are absent from Info, pixels and all other metadata are unchanged - the complete canonical
+/// result (Info at read_info, every frame, finish, Info at the end) equals that of the same file built WITHOUT those chunks,
+/// decoded with default options.  Switched explicitly to `false` the result equals the default decode.  The low-level decoder
+/// with the same options installed through its own setters is compared with the Lean framing model.
+fn ignore_switches_part(ctx: &mut Ctx, rng: &mut Rng) {
+    use crate::props::c04::{run_reader_route, run_streaming_route};
+    let ident = png::Transformations::IDENTITY;
+    let mut jobs: Vec<(String, Vec<u8>, [bool; 5])> = vec![];
+    for i in 0..ctx.n(60, 240) {
+        let mut r = rng.fork(i as u64);
+        let b = base_file(&mut r);
+        // the file with text chunks (all three kinds, before and after the image data), an ICC profile and other metadata
+        let mut cs = b.chunks.clone();
+        let mut is_text: Vec<bool> = vec![false; cs.len()];
+        let mut is_icc: Vec<bool> = vec![false; cs.len()];
+        let mut ins = |cs: &mut Vec<RawChunk>, at: usize, c: RawChunk, t: bool, p: bool, is_text: &mut Vec<bool>, is_icc: &mut Vec<bool>| {
+            cs.insert(at, c);
+            is_text.insert(at, t);
+            is_icc.insert(at, p);
+        };
+        for kind in ["gAMA", "pHYs", "eXIf", "cLLI"] {
+            if r.bool() {
+                if let Some((c, _)) = well_formed(kind, &mut r, b.color, b.depth, b.plte_entries) {
+                    let at = cs.iter().position(|c| &c.ty == b"IDAT").unwrap();
+                    ins(&mut cs, at, c, false, false, &mut is_text, &mut is_icc);
+                }
+            }
+        }
+        if let Some((c, _)) = well_formed("iCCP", &mut r, b.color, b.depth, b.plte_entries) {
+            ins(&mut cs, 1, c, false, true, &mut is_text, &mut is_icc);
+        }
+        for _ in 0..r.usize(1, 5) {
+            let kind = *r.pick(&["tEXt", "zTXt", "iTXt"]);
+            if let Some((c, _)) = well_formed(kind, &mut r, b.color, b.depth, b.plte_entries) {
+                let idat = cs.iter().position(|c| &c.ty == b"IDAT").unwrap();
+                let at = if r.bool() { r.usize(1, idat) } else { cs.len() - 1 };
+                // (a text chunk in front of PLTE / tRNS is fine)
+                ins(&mut cs, at, c, true, false, &mut is_text, &mut is_icc);
+            }
+        }
+        let file = serialize(&cs);
+        let drop = |text: bool, icc: bool| -> Vec<u8> {
+            serialize(&cs.iter().enumerate().filter(|(k, _)| !((text && is_text[*k]) || (icc && is_icc[*k]))).map(|(_, c)| c.clone()).collect::<Vec<_>>())
+        };
+        let default = run_reader(&file, &[], &DEFAULT_OPTS, ident);
+        for (text, icc) in [(true, false), (false, true), (true, true), (false, false)] {
+            let opts = [true, false, text, icc, true];
+            let name = format!("ignore text={} iccp={}", text, icc);
+            let want = run_reader(&drop(text, icc), &[], &DEFAULT_OPTS, ident);
+            let got = run_reader_route(&file, &[], &opts, ident, true);
+            // non-trivial when the default decode does report what the switch removes
+            ctx.rep.eval(default != want, fnv64(&file) ^ fnv64(name.as_bytes()));
+            ctx.rep.count("public switches (Decoder setters)", &name);
+            if got != want {
+                let case = J::obj().set("class", J::s("public-switches")).set("file", J::s(&hex(&file))).set("without", J::s(&hex(&drop(text, icc)))).set("opts", J::s(&opts_string(&opts)));
+                let key = if got.starts_with("PANIC") { "panic/public-switches".to_string() } else if pixels_part(&got) != pixels_part(&want) { format!("pixels-affected/public-switches/{}{}", if text { "text" } else { "" }, if icc { "iccp" } else { "" }) }
+                    else { format!("not-ignored/public-switches/{}{}", if text { "text" } else { "" }, if icc { "iccp" } else { "" }) };
+                ctx.rep.violation("oracle", &key, &format!("Decoder::set_ignore_text_chunk({}) + set_ignore_iccp_chunk({}): result `{}` differs from the decode of the file built without those chunks `{}`", text, icc, crate::util::shorten(&got, 400, 200), crate::util::shorten(&want, 400, 200)), case);
+            }
+            if file.len() < 40_000 && (text || icc) {
+                jobs.push((name, file.clone(), opts));
+            }
+        }
+    }
+    // the low-level decoder with the options installed through ITS setters vs the framing model under the same options
+    let lines: Vec<String> = jobs.iter().map(|j| format!("frm run {} max {} -", opts_string(&j.2), hex(&j.1))).collect();
+    let answers = model::ask(&lines);
+    for (k, (name, file, opts)) in jobs.iter().enumerate() {
+        ctx.rep.model_compared += 1;
+        let m = answers[k].rsplitn(2, " | ").last().unwrap_or("");
+        let s = run_streaming_route(file, &[], opts, true);
+        if model::outside_domain(&answers[k]) {
+            ctx.rep.model_gaps += 1;
+        } else if !same_modulo_error_detail(m, &s) {
+            ctx.rep.violation("model", "framing-info/public-switches", &format!("{}: framing model `{}` vs StreamingDecoder (options through its setters) `{}`", name, &crate::util::shorten(m, 600, 0), &crate::util::shorten(&s, 600, 0)),
+                J::obj().set("class", J::s("public-switches-model")).set("file", J::s(&hex(file))).set("opts", J::s(&opts_string(opts))));
+        }
+    }
+}
+
 pub fn run(ctx: &mut Ctx) {
     ctx.rep.rule = "reference-built stills x ancillary chunk kind (gAMA,cHRM,sRGB,pHYs,sBIT,bKGD,tRNS,cICP,mDCV,cLLI,eXIf,iCCP,tEXt,zTXt,iTXt,private) x field values (0,1,2^31,2^32-1,random; all enum members) \
         x position (before PLTE, between PLTE and IDAT, between IDATs is C10, after IDAT) x duplicate (first must win) x malformed payload (every truncation 0..len-1 and extensions +1..+3 of fixed-size kinds) \
         x bodies of 32 KiB +-2, 64 KiB, 300 KiB; each file decoded with and without the chunk through Reader (read_info, frames, finish) and through StreamingDecoder vs the Lean framing model; \
-        non-trivial: all (each carries a chunk under test); distinct = hash of file".into();
+        non-trivial: all (each carries a chunk under test); distinct = hash of file; plus chunks malformed by value (cICP matrix / range flag, iCCP name / method / profile, tRNS after IDAT of an indexed image); \
+        plus the public switches Decoder::set_ignore_text_chunk / set_ignore_iccp_chunk vs the same file built without those chunks (and StreamingDecoder setters vs the framing model)".into();
     let mut rng = ctx.rng.fork(1);
     let n = ctx.n(160, 600);
     let mut jobs: Vec<(String, Vec<u8>, Vec<u8>, Option<String>, Option<String>)> = vec![];
@@ -286,8 +368,9 @@ pub fn run(ctx: &mut Ctx) {
                     else if pos == 2 { !before_idat_only(kind) && *kind != "tRNS" || is_text || *kind == "eXIf" || *kind == "cLLI" }
                     else if pos == 1 && b.plte_at.is_some() { !before_plte_only(kind) }
                     else { true };
-                // tRNS after IDAT for gray/RGB is accepted by the code (not in the benign-ignored set): leave unconstrained
-                let unconstrained = *kind == "tRNS" && pos == 2;
+                // tRNS after IDAT for gray/RGB is accepted by the code (not in the benign-ignored set): leave unconstrained;
+                // for an indexed image it is misplaced (outside PLTE..IDAT), a benign kind: must be ignored
+                let unconstrained = *kind == "tRNS" && pos == 2 && b.color != 3;
                 let class = format!("{}/{}", kind, ["after-ihdr", "before-idat", "after-idat"][pos]);
                 if unconstrained {
                     continue;
@@ -333,6 +416,35 @@ pub fn run(ctx: &mut Ctx) {
                     jobs.push((format!("{}/malformed-length", kind), serialize(&cs), without.clone(), None, Some(kind.to_string())));
                 }
             }
+            // malformed by VALUE (right length): cICP with matrix coefficients != 0 or a full-range flag other than 0 / 1
+            if *kind == "cICP" {
+                for which in 0..2 {
+                    let mut d = chunk.data.clone();
+                    if which == 0 { d[2] = r.range(1, 255) as u8; } else { d[3] = r.range(2, 255) as u8; }
+                    let mut cs = b.chunks.clone();
+                    cs.insert(1, RawChunk::new(b"cICP", d));
+                    jobs.push((format!("cICP/malformed-{}", ["matrix-coefficients", "range-flag"][which]), serialize(&cs), without.clone(), None, Some(kind.to_string())));
+                }
+            }
+            // malformed iCCP: empty profile name, a name of 80 bytes and more (no terminator within 80 bytes), a compression method
+            // other than 0, a corrupt compressed profile: the chunk is ignored (no profile reported), the image is untouched
+            if *kind == "iCCP" {
+                let z = zlib_stream(&r.class_bytes(40), &Deflater::Level(6));
+                let long: Vec<u8> = (0..r.usize(81, 90)).map(|_| r.range(32, 126) as u8).collect();
+                let mut bodies: Vec<(&str, Vec<u8>)> = vec![];
+                bodies.push(("empty-name", [&[0u8, 0][..], &z[..]].concat()));
+                bodies.push(("name-too-long", [&long[..], &[0u8, 0][..], &z[..]].concat()));
+                // the specification allows 1..79 bytes: a name of exactly 80 bytes is the shortest one that is too long
+                bodies.push(("name-of-80-bytes", [&long[..80], &[0u8, 0][..], &z[..]].concat()));
+                bodies.push(("compression-method", [&b"name"[..], &[0u8, r.range(1, 255) as u8][..], &z[..]].concat()));
+                bodies.push(("corrupt-profile", [&b"name"[..], &[0u8, 0][..], &z[..z.len() / 2]].concat()));
+                bodies.push(("no-terminator", b"name".to_vec()));
+                for (what, d) in bodies {
+                    let mut cs = b.chunks.clone();
+                    cs.insert(b.idat_at, RawChunk::new(b"iCCP", d));
+                    jobs.push((format!("iCCP/malformed-{}", what), serialize(&cs), without.clone(), None, Some(kind.to_string())));
+                }
+            }
         }
     }
     let lines: Vec<String> = jobs.iter().map(|j| format!("frm run {} max {} -", opts_string(&DEFAULT_OPTS), hex(&j.1))).collect();
@@ -343,12 +455,37 @@ pub fn run(ctx: &mut Ctx) {
             ctx.rep.sample(J::obj().set("class", J::s(class)).set("file_bytes", J::i(file.len() as u64)).set("expect", J::s(expect.as_deref().unwrap_or("(ignored)"))));
         }
     }
+    let mut r = rng.fork(0x16_5e7);
+    ignore_switches_part(ctx, &mut r);
 }
 
 pub fn replay(ctx: &mut Ctx, case: &J) {
     let file = case.get("file").and_then(|f| f.as_str()).and_then(unhex).unwrap_or_default();
     let without = case.get("without").and_then(|f| f.as_str()).and_then(unhex).unwrap_or_default();
     let class = case.get("class").and_then(|f| f.as_str()).unwrap_or("replay").to_string();
+    if class.starts_with("public-switches") {
+        let mut opts = DEFAULT_OPTS;
+        for (i, ch) in case.get("opts").and_then(|f| f.as_str()).unwrap_or("10001").chars().enumerate().take(5) {
+            opts[i] = ch == '1';
+        }
+        ctx.rep.eval(true, fnv64(&file));
+        if class == "public-switches" {
+            let got = crate::props::c04::run_reader_route(&file, &[], &opts, png::Transformations::IDENTITY, true);
+            let want = run_reader(&without, &[], &DEFAULT_OPTS, png::Transformations::IDENTITY);
+            println!("through the setters: {}\nwithout the chunks:  {}", got, want);
+            if got != want {
+                ctx.rep.violation("oracle", "not-ignored/public-switches/replay", "the decode through the public switches differs from the decode of the file without the chunks", case.clone());
+            }
+        } else {
+            let ans = model::ask_one(&[format!("frm run {} max {} -", opts_string(&opts), hex(&file))]);
+            let m = ans[0].rsplitn(2, " | ").last().unwrap_or("").to_string();
+            let s = crate::props::c04::run_streaming_route(&file, &[], &opts, true);
+            if !same_modulo_error_detail(&m, &s) {
+                ctx.rep.violation("model", "framing-info/public-switches", &format!("framing model `{}` vs StreamingDecoder `{}`", m, s), case.clone());
+            }
+        }
+        return;
+    }
     let expect = case.get("expect").and_then(|f| f.as_str()).filter(|s| !s.is_empty()).map(|s| s.to_string());
     let absent = case.get("absent").and_then(|f| f.as_str()).filter(|s| !s.is_empty()).map(|s| s.to_string());
     let ans = model::ask_one(&[format!("frm run {} max {} -", opts_string(&DEFAULT_OPTS), hex(&file))]);
